@@ -173,7 +173,7 @@ META = {
     ),
     "outside": [
         "variational bound, Rayleigh-quotient identity and the residual identity beta_j*|y_j| = |H psi - E psi| (exact-Lanczos theorems through LAPACK eigh in floating point)",
-        "Krylov dimension > 2, more than 1 restart, vectors of dimension > 2",
+        "Krylov dimension > 2; Krylov dimension 2 combined with a restart (z3 `unknown`); more than 3 restarts; vectors of dimension > 2",
     ],
     "assumptions": ["eigh returns arbitrary real (theta, y) with a non-zero first eigenvector: only the bookkeeping is decided"],
 }
@@ -181,7 +181,9 @@ META = {
 
 def cases(tier):
     out = []
-    grid = [(1, 0), (2, 0), (1, 1)] if tier == "quick" else [(1, 0), (2, 0), (1, 1), (2, 1), (1, 2)]
+    # (2 Krylov vectors + a restart nests the normalisation square roots three deep: z3 answers `unknown`
+    #  after 20 min even for the unit-norm clause, so that size is not part of the thorough tier)
+    grid = [(1, 0), (2, 0), (1, 1)] if tier == "quick" else [(1, 0), (2, 0), (1, 1), (1, 2), (1, 3)]
     for mk, mr in grid:
         out.append(
             Case(
